@@ -402,6 +402,8 @@ func probeSched(f []string) string {
 			time.Sleep(time.Duration(atoi(a[1])) * time.Millisecond)
 		case "latestart":
 			lateStart.Store(true)
+		case "slowns":
+			be.nsDelayMs.Store(int64(atoi(a[1])))
 		case "slowlogout":
 			be.logoutDelayMs.Store(int64(atoi(a[1])))
 		case "connclose":
